@@ -136,9 +136,12 @@ impl<'de, R: Reader<'de>> Parser<R> {
             old(self).nospace_start == -128 || old(self).nospace_start <= old(self).read.idx() - 1,
         ensures final(self).pinv(), final(self).same_doc(old(self)),
     { unimplemented!() }
-    // fix_position only rewrites the position of an error (unit `errors`)
-    #[verifier::external_body]
-    pub fn fix_position(&self, err: Error) -> (e: Error) { unimplemented!() }
+//@extract file=src/parser.rs impl="Parser<R>" fn=fix_position
+//@sig
+        requires self.pinv(),
+        // an error without a position gets one (here, at the reader); one that has a position keeps it
+        ensures res.has_pos, err.has_pos ==> res == err,
+//@end
     // the NON-validating skipper (not called by the code under contract here; present so that a change that swaps it in
     // for the validating one is decided, not undecided): what unit `unchecked` proves about it — it equals skip_one
     // on a well-formed value in a well-formed context, and nothing is known otherwise
@@ -530,6 +533,13 @@ pub trait Deserialize<'de>: Sized {
         ensures final(d).parser.pinv(), final(d).parser.same_doc(&old(d).parser),
             (r.is_ok() && old(d).parser.read.idx() == 0) ==> final(d).parser.read.idx() == Self::consumed(old(d).parser.read.data());
 }
+impl Error {
+    // accessors of the real error type (unit `errors`): line 0 means "no position"
+    #[verifier::external_body]
+    pub fn line(&self) -> (r: usize) ensures (r == 0) <==> !self.has_pos, { unimplemented!() }
+    #[verifier::external_body]
+    pub fn error_code(&self) -> (r: ErrorCode) { unimplemented!() }
+}
 impl<'de, R: Reader<'de>> Parser<R> {
     // proved for the real function in unit `strings`
     #[verifier::external_body]
@@ -539,6 +549,7 @@ impl<'de, R: Reader<'de>> Parser<R> {
             old(self).utf8_clean() ==> res.is_ok() && !res.unwrap() && final(self).utf8_clean(),
             !old(self).utf8_clean() && !allowed ==> res.is_err(),
             !old(self).utf8_clean() && allowed ==> res.is_ok() && res.unwrap(),
+            res.is_err() ==> res.unwrap_err().has_pos,
     { unimplemented!() }
 }
 impl<'de, R: Reader<'de>> Deserializer<R> {
@@ -552,6 +563,9 @@ impl<'de, R: Reader<'de>> Deserializer<R> {
             // validated one by one — a document is handed out in the default configuration only if no invalid UTF-8 lies
             // in what has been consumed
             (res.is_ok() && !old(self).parser.cfg.utf8_lossy) ==> final(self).parser.utf8_clean(),
+            // C20 (found F23): whatever made the error — the parser, a visitor, derived code after the deserializer
+            // returned — it leaves this entry point with a position
+            res.is_err() ==> (res->Err_0).has_pos,
 //@end
 
     #[verifier::external_body]
@@ -574,6 +588,8 @@ pub fn too_large_error(len: usize) -> (e: Error) { unimplemented!() }
         // the 4 GB guard, "the whole input has been consumed" and the deferred UTF-8 verdict: a value is returned only
         // if the input is at most u32::MAX bytes long and nothing but whitespace follows what T's deserializer consumed
         res.is_ok() ==> read.data().len() <= 0xffff_ffff && ws_end(read.data(), T::consumed(read.data())) == read.data().len(),
+        // C20 (found F23): every error of an input within the size limit leaves with a position
+        (res.is_err() && read.data().len() <= 0xffff_ffff) ==> (res->Err_0).has_pos,
 //@end
 
 // ---- lossy mode (found F19): the offset consumed in the repaired copy of the input is mapped back to the input
